@@ -161,6 +161,31 @@ def run_tlc(module, cfg_text, env=None, workers=1, heap="3g", timeout=900, extra
     return p.returncode, p.stdout
 
 
+def model_check(module, cfgname, workers=4, heap="8g", timeout=1800):
+    """Model-check a design-level module with spec/cfg/<cfgname>; a refuted model or a TLC failure is
+    inconclusive (a model-only result is never reported as a violation).  Returns (generated, distinct)."""
+    d = tlc_dir(None)
+    cfg_text = open(os.path.join(SPEC, "cfg", cfgname)).read()
+    t0 = time.time()
+    rc, out = run_tlc(module + ".tla", cfg_text, workers=workers, heap=heap, timeout=timeout, d=d)
+    if rc != 0 or "No error has been found" not in out:
+        raise Inconclusive("design model %s with %s is refuted or TLC failed (rc=%s); a model-only result is never a violation:\n%s" % (module, cfgname, rc, out[-2500:]))
+    gen, dist = tlc_stats(out)
+    log("model %s/%s: %d distinct states, %d generated, %.1fs" % (module, cfgname, dist, gen, time.time() - t0))
+    return gen, dist
+
+
+def model_check_all(models):
+    gen = dist = 0
+    names = []
+    for (module, cfgname) in models:
+        g, dd = model_check(module, cfgname)
+        gen += g
+        dist += dd
+        names.append("%s[%s]: %d states / %d transitions" % (module, cfgname, dd, g))
+    return gen, dist, names
+
+
 def tlc_stats(out):
     """(generated, distinct) from TLC's summary line, or (0,0)."""
     m = re.findall(r"(\d+) states generated, (\d+) distinct states found", out)
